@@ -1,16 +1,26 @@
 //! C05: message keys are single-use.  (1) secret-tree request scripts against the Lean ratchet model
 //! (stream `c05.q`), (2) real groups: every (key, nonce) pair handed to `aead_seal` is unique, every
 //! ciphertext is accepted exactly once under permuted/duplicated delivery, the 1024-generation window
-//! is exact, across save/reload of sender and receiver.
+//! is exact, across save/reload of sender and receiver.  (3) real groups whose members encrypt their
+//! control messages: application messages and encrypted proposals of every sender interleaved within
+//! one epoch, the encrypted commit ending it, traffic of the next epoch and late traffic of the old one.
+//!
+//! The seal log is classified by the AAD (`classify`): message content / sender data / welcome.  The
+//! sender-data plaintext (leaf, generation, reuse guard) is what the provider is handed in the clear,
+//! so every content seal is known as (epoch, leaf, ratchet, generation, key, nonce BEFORE the guard);
+//! those are compared with the keys of a secret tree replayed from the epoch's encryption secret, and
+//! written as `st.get` / `sdk` rows for the Lean model.
 use crate::c13::secret_tree_script;
-use crate::providers::SharedCryptoLog;
-use crate::util::{Opts, Rng, QA};
+use crate::providers::{SealRec, SharedCryptoLog};
+use crate::util::{hex, Opts, Rng, QA};
 use crate::world::*;
 use mls_rs::client_builder::MlsConfig;
-use mls_rs::group::ReceivedMessage;
-use mls_rs::{CipherSuite, Client, CryptoProvider, MlsMessage};
+use mls_rs::group::proposal::{CustomProposal, ProposalType};
+use mls_rs::group::{CommitEffect, ProposalSender, ReceivedMessage};
+use mls_rs::verif::kdf;
+use mls_rs::{CipherSuite, CipherSuiteProvider, Client, CryptoProvider, ExtensionList, MlsMessage};
 use mls_rs_crypto_rustcrypto::RustCryptoProvider;
-use std::collections::BTreeSet;
+use std::collections::{BTreeMap, BTreeSet};
 
 struct Out {
     fails: Vec<String>,
@@ -21,6 +31,215 @@ struct Out {
     seals: u64,
     cover: BTreeSet<String>,
     samples: Vec<String>,
+}
+
+
+// ---------------------------------------------------------------------------------------------
+// the seal log, classified
+
+/// One encryption of message content, as the provider saw it: the content seal and the sender-data seal following it.
+#[derive(Clone, Debug)]
+struct ContentSeal {
+    epoch: u64,
+    /// 1 application, 2 proposal, 3 commit
+    ctype: u8,
+    leaf: u32,
+    gen: u32,
+    key: Vec<u8>,
+    /// the nonce before the reuse guard was XORed in
+    base: Vec<u8>,
+    ct: Vec<u8>,
+    sd_key: Vec<u8>,
+    sd_nonce: Vec<u8>,
+}
+
+impl ContentSeal {
+    fn app(&self) -> bool {
+        self.ctype == 1
+    }
+    fn d(&self) -> String {
+        format!("(epoch {} leaf {} {} generation {})", self.epoch, self.leaf, ["?", "application", "proposal", "commit"][self.ctype.min(3) as usize], self.gen)
+    }
+}
+
+fn rd_varbytes(b: &[u8]) -> Option<(&[u8], &[u8])> {
+    let f = *b.first()?;
+    let (n, hl) = match f >> 6 {
+        0 => ((f & 0x3f) as usize, 1),
+        1 => ((((f & 0x3f) as usize) << 8) | *b.get(1)? as usize, 2),
+        2 => {
+            if b.len() < 4 {
+                return None;
+            }
+            ((((f & 0x3f) as usize) << 24) | (b[1] as usize) << 16 | (b[2] as usize) << 8 | b[3] as usize, 4)
+        }
+        _ => return None,
+    };
+    if b.len() < hl + n {
+        return None;
+    }
+    Some((&b[hl..hl + n], &b[hl + n..]))
+}
+
+/// `SenderDataAAD` = group_id, epoch, content_type; `PrivateContentAAD` = the same followed by authenticated_data<V>.
+/// Returns (group id, epoch, content type, is the content form).
+fn parse_aad(a: &[u8]) -> Option<(Vec<u8>, u64, u8, bool)> {
+    let (gid, r) = rd_varbytes(a)?;
+    if r.len() < 9 {
+        return None;
+    }
+    let epoch = u64::from_be_bytes(r[..8].try_into().ok()?);
+    let ctype = r[8];
+    let rest = &r[9..];
+    let content = if rest.is_empty() {
+        false
+    } else {
+        let (_, t) = rd_varbytes(rest)?;
+        if !t.is_empty() {
+            return None;
+        }
+        true
+    };
+    Some((gid.to_vec(), epoch, ctype, content))
+}
+
+/// Content seals of a stretch of the log (in order) and the number of welcome seals (no AAD) in it.
+fn classify(recs: &[SealRec], fails: &mut Vec<String>) -> (Vec<ContentSeal>, usize) {
+    let mut out = vec![];
+    let mut welcome = 0;
+    let mut i = 0;
+    while i < recs.len() {
+        let r = &recs[i];
+        i += 1;
+        let Some(aad) = &r.aad else {
+            welcome += 1;
+            continue;
+        };
+        let Some((gid, epoch, ctype, content)) = parse_aad(aad) else {
+            fails.push("seal log: an aead_seal whose AAD is neither PrivateContentAAD nor SenderDataAAD".into());
+            continue;
+        };
+        if !content {
+            fails.push("seal log: a sender-data seal that does not follow a content seal".into());
+            continue;
+        }
+        if !(1..=3).contains(&ctype) {
+            fails.push(format!("seal log: content type {ctype}"));
+        }
+        // the sender data of this content: next call, same group/epoch/content type, 12 bytes leaf | generation | reuse guard
+        let sd = recs.get(i).and_then(|n| n.aad.as_ref().and_then(|a| parse_aad(a)).map(|p| (n, p)));
+        match sd {
+            Some((n, (g2, e2, c2, false))) if g2 == gid && e2 == epoch && c2 == ctype && n.pt_len == 12 && n.pt_head.len() == 12 => {
+                i += 1;
+                let leaf = u32::from_be_bytes(n.pt_head[0..4].try_into().unwrap());
+                let gen = u32::from_be_bytes(n.pt_head[4..8].try_into().unwrap());
+                let mut base = r.nonce.clone();
+                for (b, g) in base.iter_mut().zip(n.pt_head[8..12].iter()) {
+                    *b ^= g;
+                }
+                out.push(ContentSeal { epoch, ctype, leaf, gen, key: r.key.clone(), base, ct: r.ct.clone(), sd_key: n.key.clone(), sd_nonce: n.nonce.clone() });
+            }
+            _ => fails.push("seal log: a content seal that is not followed by its sender-data seal".into()),
+        }
+    }
+    (out, welcome)
+}
+
+/// The sharp form of "no two encryptions of message content share key and nonce": the reuse guard is random, so the nonce as
+/// sealed differs (almost always) even when a generation is used twice.  Checked on what the ratchets handed out instead:
+/// no content key twice, no nonce-before-guard twice, no (leaf, ratchet, generation) twice, each sender's generations of each
+/// ratchet are 0, 1, 2, … in the order of its encryptions, application and handshake keys disjoint; sender-data seals
+/// (key and nonce from the sender-data secret and the ciphertext sample) are a separate class and never use a content key.
+fn seal_oracles(seals: &[ContentSeal], fails: &mut Vec<String>) {
+    let mut keys: BTreeMap<&[u8], &ContentSeal> = BTreeMap::new();
+    let mut bases: BTreeMap<&[u8], &ContentSeal> = BTreeMap::new();
+    let mut pairs: BTreeSet<(&[u8], &[u8])> = BTreeSet::new();
+    let mut triples: BTreeSet<(u64, u32, bool, u32)> = BTreeSet::new();
+    let mut next: BTreeMap<(u64, u32, bool), u32> = BTreeMap::new();
+    for s in seals {
+        if !pairs.insert((&s.key, &s.base)) {
+            fails.push(format!("two encryptions of message content used the same key and the same nonce before the reuse guard: {}", s.d()));
+        }
+        if let Some(o) = keys.insert(&s.key, s) {
+            fails.push(format!("an AEAD key was passed to seal for message content twice: {} and {}", o.d(), s.d()));
+            if o.app() != s.app() {
+                fails.push(format!("an application and a handshake message share a key: {} and {}", o.d(), s.d()));
+            }
+        }
+        if let Some(o) = bases.insert(&s.base, s) {
+            fails.push(format!("two encryptions of message content used the same ratchet nonce: {} and {}", o.d(), s.d()));
+        }
+        if !triples.insert((s.epoch, s.leaf, s.app(), s.gen)) {
+            fails.push(format!("a sender used a generation of one ratchet twice: {}", s.d()));
+        }
+        let n = next.entry((s.epoch, s.leaf, s.app())).or_insert(0);
+        if s.gen != *n {
+            fails.push(format!("sender generations are not consecutive: {} where generation {} of that ratchet was due", s.d(), *n));
+        }
+        *n = s.gen.max(*n) + 1;
+    }
+    let mut sd: BTreeSet<(&[u8], &[u8])> = BTreeSet::new();
+    for s in seals {
+        if keys.contains_key(&s.sd_key[..]) {
+            fails.push(format!("a sender-data seal used a message content key: {}", s.d()));
+        }
+        if !sd.insert((&s.sd_key, &s.sd_nonce)) {
+            fails.push(format!("two sender-data seals used the same key and nonce: {}", s.d()));
+        }
+    }
+}
+
+/// What a member that has not touched its secret tree in this epoch holds: (epoch, leaf count, encryption secret,
+/// sender-data secret).  `None` if the tree has been used (more than the root entry).
+fn fresh_epoch_view<C: MlsConfig>(w: &World<C>, i: usize) -> Option<(u64, u32, Vec<u8>, Vec<u8>)> {
+    let c = w.components(i);
+    let get = |k: &str| c.iter().find(|x| x.0 == k).map(|x| x.1.clone());
+    let t = get("secret_tree")?;
+    let sds = get("sender_data_secret")?;
+    if t.len() < 9 || t[8] != 0 {
+        return None;
+    }
+    let leaves = u32::from_be_bytes(t[0..4].try_into().ok()?);
+    let idx = u32::from_be_bytes(t[4..8].try_into().ok()?);
+    let (enc, rest) = rd_varbytes(&t[9..])?;
+    if !rest.is_empty() || idx != leaves - 1 {
+        return None;
+    }
+    Some((w.group(i).current_epoch(), leaves, enc.to_vec(), sds))
+}
+
+/// The content seals of one epoch against a secret tree replayed from the epoch's encryption secret (`st.*` rows: the answer
+/// column is what the real group sealed with), the sender-data seals against `SenderDataKey::new` (`sdk` rows).
+fn replay_epoch<P: CipherSuiteProvider>(cs: &P, view: &(u64, u32, Vec<u8>, Vec<u8>), seals: &[ContentSeal], qa: &mut QA, fails: &mut Vec<String>, sdk_rows: usize) {
+    let (epoch, leaves, enc, sds) = view;
+    let mut st = kdf::VSecretTree::new(*leaves, enc);
+    qa.put(&format!("st.new 1 {leaves} {}", hex(enc)), "ok");
+    let mut n_sdk = 0;
+    for s in seals.iter().filter(|s| s.epoch == *epoch) {
+        let kt = if s.app() { "app" } else { "hs" };
+        qa.put(&format!("st.get {} {kt} {}", 2 * s.leaf, s.gen), &format!("{} {} {}", hex(&s.base), hex(&s.key), s.gen));
+        match st.get(cs, 2 * s.leaf, s.app(), s.gen) {
+            Ok((n, k, _)) => {
+                if k != s.key {
+                    fails.push(format!("the key sealed with is not the secret-tree key of {}", s.d()));
+                }
+                if n != s.base {
+                    fails.push(format!("the nonce sealed with (reuse guard removed) is not the secret-tree nonce of {}", s.d()));
+                }
+            }
+            Err(e) => fails.push(format!("replayed secret tree has no key for {}: {}", s.d(), crate::c13::err_class(&e))),
+        }
+        let sample = &s.ct[..s.ct.len().min(cs.kdf_extract_size())];
+        let k = kdf::expand_with_label(cs, sds, b"key", sample, Some(cs.aead_key_size())).unwrap_or_default();
+        let n = kdf::expand_with_label(cs, sds, b"nonce", sample, Some(cs.aead_nonce_size())).unwrap_or_default();
+        if k != s.sd_key || n != s.sd_nonce {
+            fails.push(format!("sender-data seal of {} does not use the key/nonce derived from the sender-data secret and the ciphertext sample", s.d()));
+        }
+        if n_sdk < sdk_rows {
+            n_sdk += 1;
+            qa.put(&format!("sdk 1 {} {}", hex(sds), hex(&s.ct)), &format!("{} {}", hex(&s.sd_key), hex(&s.sd_nonce)));
+        }
+    }
 }
 
 fn small_group<C: MlsConfig>(
@@ -81,23 +300,27 @@ fn reload<C: MlsConfig>(w: &mut World<C>, i: usize) -> Result<(), String> {
     Ok(())
 }
 
-fn scenario<C: MlsConfig>(
+fn scenario<C: MlsConfig, P: CipherSuiteProvider>(
     rng: &mut Rng,
     log: SharedCryptoLog,
     mk: &dyn Fn(&Setup, &Handles, mls_rs::identity::SigningIdentity, mls_rs::crypto::SignatureSecretKey) -> Client<C>,
     out: &mut Out,
     big_gap: bool,
+    cs: &P,
+    qa: &mut QA,
 ) {
-    let mut w: World<C> = new_world(log.clone(), "/tmp/vharness-scratch-c05");
+    let mut w: World<C> = new_world(log.clone(), &crate::util::scratch("c05"));
     let n = rng.range(2, 4) as usize;
     let enc_ctl = rng.chance(1, 2);
     if let Err(e) = small_group(&mut w, mk, n, enc_ctl, rng.chance(1, 3)) {
         out.fails.push(format!("setup: {e}"));
         return;
     }
+    let view = fresh_epoch_view(&w, 0);
     {
         let mut l = log.lock().unwrap();
         l.aead_seals.clear();
+        l.seal_recs.clear();
         l.enabled = true;
     }
     // senders emit application messages (and, with encrypted controls, handshake proposals)
@@ -138,6 +361,22 @@ fn scenario<C: MlsConfig>(
                 out.fails.push("an AEAD content key was used for two encryptions".into());
             }
         }
+        // the same on the classified log: keys, nonces before the reuse guard, generations; against the replayed secret tree
+        let (seals, _) = classify(&l.seal_recs, &mut out.fails);
+        if seals.len() != stream.len() {
+            out.fails.push(format!("{} content seals for {} messages", seals.len(), stream.len()));
+        }
+        for (s, (from, m, _)) in seals.iter().zip(stream.iter()) {
+            if s.leaf as usize != *from || !s.app() || !m.to_bytes().map(|b| b.ends_with(&s.ct)).unwrap_or(false) {
+                out.fails.push(format!("seal log does not match the message stream at {}", s.d()));
+            }
+        }
+        seal_oracles(&seals, &mut out.fails);
+        match &view {
+            Some(v) => replay_epoch(cs, v, &seals, qa, &mut out.fails, 8),
+            None => out.fails.push("no member with an untouched secret tree at the start of the epoch".into()),
+        }
+        l.seal_recs.clear();
     }
     // delivery per receiver
     for r in 0..n {
@@ -188,7 +427,9 @@ fn scenario<C: MlsConfig>(
                     if big_gap {
                         // exact window: with the ratchet at generation 0, generation g is accepted iff g <= 1024
                         let ratchet_at = 0u64;
-                        if gen_idx <= ratchet_at + 1024 && accepted.is_empty() {
+                        // (after the first acceptance the ratchet has moved past the older generations, whose keys it stored on the way:
+                        // they are served from that history, so a refusal inside the window is a failure at any point)
+                        if gen_idx <= ratchet_at + 1024 {
                             out.fails.push(format!("receiver {r} refused generation {gen_idx} inside the window: {e}"));
                         }
                         out.cover.insert(format!("gap:{e}"));
@@ -233,6 +474,621 @@ fn scenario<C: MlsConfig>(
     }
 }
 
+
+// ---------------------------------------------------------------------------------------------
+// (3) application messages and encrypted handshake messages of the same senders, interleaved
+
+type Mk<'a, C> = &'a dyn Fn(&Setup, &Handles, mls_rs::identity::SigningIdentity, mls_rs::crypto::SignatureSecretKey) -> Client<C>;
+
+/// One ratchet of one sender as one receiver holds it, as far as the verdict goes (`Ratchet.get` of the Lean model, theorem
+/// `get_ok_iff`): generation `g` is served iff it has not been served and `g <= cur + 1024`; then `cur = max(cur, g + 1)`.
+#[derive(Default)]
+struct Rm {
+    cur: u32,
+    used: BTreeSet<u32>,
+}
+
+struct Item {
+    sender: usize,
+    /// "app", a proposal kind, or "commit"
+    kind: &'static str,
+    msg: MlsMessage,
+    /// payload of an application message, authenticated data of a proposal
+    tag: Vec<u8>,
+    seal: ContentSeal,
+}
+
+struct Hs<C: MlsConfig> {
+    w: World<C>,
+    log: SharedCryptoLog,
+    items: Vec<Item>,
+    /// (receiver, epoch, sender leaf, application ratchet?)
+    model: BTreeMap<(usize, u64, u32, bool), Rm>,
+    log_pos: usize,
+    /// messages sealed so far per (epoch, sender, application?)
+    sent: BTreeMap<(u64, usize, bool), u32>,
+}
+
+fn hs_note_seal<C: MlsConfig>(h: &mut Hs<C>, s: usize, kind: &'static str, epoch: u64, m: &MlsMessage, out: &mut Out) -> Option<ContentSeal> {
+    let recs: Vec<SealRec> = {
+        let l = h.log.lock().unwrap();
+        l.seal_recs[h.log_pos..].to_vec()
+    };
+    h.log_pos += recs.len();
+    let (mut seals, _) = classify(&recs, &mut out.fails);
+    if seals.len() != 1 {
+        out.fails.push(format!("{kind} by member {s}: {} content seals", seals.len()));
+        return None;
+    }
+    let seal = seals.pop().unwrap();
+    let want = match kind {
+        "app" => 1,
+        "commit" => 3,
+        _ => 2,
+    };
+    if !m.to_bytes().map(|b| b.ends_with(&seal.ct)).unwrap_or(false) {
+        out.fails.push(format!("{kind} by member {s}: the message does not end with the sealed ciphertext"));
+    }
+    if seal.leaf != h.w.group(s).current_member_index() || seal.epoch != epoch || seal.ctype != want {
+        out.fails.push(format!("{kind} by member {s} in epoch {epoch}: sealed as {}", seal.d()));
+    }
+    // the two ratchets of a sender count independently: the k-th application message has application generation k whatever
+    // was sent on the handshake ratchet in between, and the other way round
+    let c = h.sent.entry((epoch, s, kind == "app")).or_insert(0);
+    if seal.gen != *c {
+        out.fails.push(format!(
+            "{kind} by member {s} is its {}th {} message of epoch {epoch} but was sealed as {}",
+            *c,
+            if kind == "app" { "application" } else { "handshake" },
+            seal.d()
+        ));
+    }
+    *c += 1;
+    Some(seal)
+}
+
+/// `clear`: a member holding proposals (its own or received ones) forgets them before it sends application data
+/// (`clear_proposal_cache`); otherwise the send is attempted and must be refused (`CommitRequired`) without using a key — the
+/// next message of that ratchet shows the generation was not consumed.
+fn hs_send<C: MlsConfig>(h: &mut Hs<C>, mk: Mk<C>, s: usize, kind: &'static str, tag: Vec<u8>, clear: bool, out: &mut Out) -> Option<usize> {
+    let n = h.w.members.len();
+    let epoch = h.w.group(s).current_epoch();
+    let t = tag.clone();
+    if kind == "app" && h.w.group(s).commit_required() {
+        if clear {
+            h.w.with_group(s, |g| {
+                g.clear_proposal_cache();
+                Ok(())
+            });
+            out.cover.insert("hs:clear-cache-then-app".into());
+        } else {
+            let (r, m) = h.w.with_group(s, |g| g.encrypt_application_message(&t, vec![]));
+            if m.is_some() {
+                out.fails.push(format!("member {s} encrypted application data while holding proposals"));
+                let l = h.log.lock().unwrap().seal_recs.len();
+                h.log_pos = l;
+            }
+            out.cover.insert(format!("hs:app-while-proposals:{}", r.s()));
+            return None;
+        }
+    }
+    let (r, m) = match kind {
+        "app" => h.w.with_group(s, |g| g.encrypt_application_message(&t, vec![])),
+        "psk" => {
+            for m in &h.w.members {
+                m.h.psk.inner.lock().unwrap().insert(ext_psk_id(&tag), psk_value(&[&tag[..], &[7u8; 32]].concat()));
+            }
+            h.w.with_group(s, |g| g.propose_external_psk(ext_psk_id(&t), t.clone()))
+        }
+        "update" => h.w.with_group(s, |g| g.propose_update(t)),
+        "gce" => h.w.with_group(s, |g| g.propose_group_context_extensions(ExtensionList::new(), t)),
+        "remove" => h.w.with_group(s, |g| g.propose_remove(((s + 1) % n) as u32, t)),
+        "custom" => h.w.with_group(s, |g| g.propose_custom(CustomProposal::new(ProposalType::from(0xf00du16), t.clone()), t)),
+        "add" => {
+            let su = Setup::new(&format!("x{}", hex(&tag)));
+            let hd = handles(&su, &h.w.crypto_log, &h.w.scratch);
+            let (id, sk) = make_identity(&su.name, su.suite);
+            let kp = mk(&su, &hd, id, sk).generate_key_package_message(Default::default(), Default::default(), None);
+            match kp {
+                Ok(kp) => h.w.with_group(s, |g| g.propose_add(kp, t)),
+                Err(e) => (Res::Err(err_class(&e)), None),
+            }
+        }
+        _ => unreachable!(),
+    };
+    let Some(m) = m else {
+        out.fails.push(format!("{kind} by member {s} failed: {}", r.s()));
+        return None;
+    };
+    let seal = hs_note_seal(h, s, kind, epoch, &m, out)?;
+    h.items.push(Item { sender: s, kind, msg: m, tag, seal });
+    out.msgs += 1;
+    Some(h.items.len() - 1)
+}
+
+/// Deliver item `mi` to member `r` (possibly its sender) and compare with the verdict the ratchet model gives.
+fn hs_deliver<C: MlsConfig>(h: &mut Hs<C>, r: usize, mi: usize, out: &mut Out) -> bool {
+    let (sender, kind, tag, seal, m) = {
+        let it = &h.items[mi];
+        (it.sender, it.kind, it.tag.clone(), it.seal.clone(), it.msg.clone())
+    };
+    let kt = if seal.app() { "app" } else { "hs" };
+    let own = sender == r;
+    let late = seal.epoch < h.w.group(r).current_epoch();
+    let key = (r, seal.epoch, seal.leaf, seal.app());
+    let (cur, used) = h.model.get(&key).map(|m| (m.cur, m.used.contains(&seal.gen))).unwrap_or((0, false));
+    let in_window = seal.gen as u64 <= cur as u64 + 1024;
+    // a proposal or commit of a closed epoch is refused whatever its generation (only application data is taken late)
+    let closed = late && kind != "app";
+    let expect_ok = !own && !used && in_window && !closed;
+    let before = if !expect_ok { Some(comps(&h.w, r)) } else { None };
+    let (res, o) = h.w.with_group(r, |g| g.process_incoming_message(m));
+    out.deliveries += 1;
+    let what = format!("{kind} {} of member {sender}", seal.d());
+    if own {
+        // the sender's copy: an application message is refused; an encrypted proposal is answered from the cache of own
+        // proposals (no key involved).  Either way nothing of the member changes when it is refused.
+        match (&res, kind) {
+            (Res::Ok, "app") | (Res::Ok, "commit") => out.fails.push(format!("member {r} accepted its own {what}")),
+            (Res::Panic(p), _) => out.fails.push(format!("panic on delivery: {p}")),
+            _ => {}
+        }
+        out.cover.insert(format!("own-echo:{}:{}", if kind == "app" { "app" } else { "proposal" }, res.s()));
+        let ch = World::<C>::changed(before.as_ref().unwrap(), &comps(&h.w, r));
+        if !ch.is_empty() {
+            if let Res::Err(e) = &res {
+                out.c04.push(format!("own message refused with {e} changed {ch:?} of the sender"));
+            } else if ch.iter().any(|c| c == "secret_tree") {
+                out.fails.push(format!("member {r} processing its own {what} changed its secret tree"));
+            }
+        }
+        return false;
+    }
+    match (&res, o) {
+        (Res::Ok, Some(rm)) => {
+            if !expect_ok {
+                out.fails.push(format!(
+                    "receiver {r} accepted {what} {}",
+                    if closed { "of a closed epoch" } else if used { "a second time" } else { "more than 1024 generations ahead of its ratchet" }
+                ));
+                return true;
+            }
+            let good = match (&rm, kind) {
+                (ReceivedMessage::ApplicationMessage(a), "app") => a.sender_index == seal.leaf && a.data() == &tag[..],
+                (ReceivedMessage::Commit(c), "commit") => c.committer == seal.leaf && matches!(c.effect, CommitEffect::NewEpoch(_)),
+                (ReceivedMessage::Proposal(p), k) => p.sender == ProposalSender::Member(seal.leaf) && p.authenticated_data == tag && proposal_kind(&p.proposal) == k,
+                _ => false,
+            };
+            if !good {
+                out.fails.push(format!("receiver {r}: wrong sender/content for {what}: {}", received_summary(&rm)));
+            }
+            // coverage of the independence of the two ratchets and of gaps
+            let other = h.model.get(&(r, seal.epoch, seal.leaf, !seal.app())).map(|m| m.cur).unwrap_or(0);
+            if seal.gen == 0 && other > 0 {
+                out.cover.insert(format!("{kt}0-after-{}", if seal.app() { "hs" } else { "app" }));
+                if other > 50 {
+                    out.cover.insert(format!("{kt}0-after-{}50", if seal.app() { "hs" } else { "app" }));
+                }
+            }
+            if seal.gen > cur {
+                out.cover.insert(format!("gap:{kt}"));
+                if seal.gen as u64 == cur as u64 + 1024 {
+                    out.cover.insert(format!("window-edge:{kt}{}", if kind == "commit" { ":commit" } else { "" }));
+                }
+            } else if seal.gen < cur {
+                out.cover.insert(format!("from-history:{kt}"));
+            }
+            if late {
+                out.cover.insert(format!("late:{kt}:ok"));
+            }
+            let m = h.model.entry(key).or_default();
+            m.used.insert(seal.gen);
+            m.cur = m.cur.max(seal.gen + 1);
+            true
+        }
+        (Res::Err(e), _) => {
+            if expect_ok {
+                out.fails.push(format!("receiver {r} refused {what} (ratchet at {cur}, not served before{}): {e}", if late { ", epoch closed" } else { "" }));
+            } else {
+                out.cover.insert(format!("refused:{}:{}:{e}", if closed { "epoch-closed" } else if used { "replay" } else { "window" }, if kind == "commit" { "commit" } else { kt }));
+                let ch = World::<C>::changed(before.as_ref().unwrap(), &comps(&h.w, r));
+                if !ch.is_empty() {
+                    out.c04.push(format!("a message refused with {e} changed {ch:?} of the receiver"));
+                }
+            }
+            false
+        }
+        (Res::Panic(p), _) => {
+            out.fails.push(format!("panic on delivery: {p}"));
+            false
+        }
+        _ => {
+            out.fails.push(format!("receiver {r}: unexpected result for {what}"));
+            false
+        }
+    }
+}
+
+/// the member's state without the read-through cache marker of prior epochs (not part of the saved state; DESIGN section 13)
+fn comps<C: MlsConfig>(w: &World<C>, i: usize) -> Vec<(String, Vec<u8>)> {
+    w.components(i).into_iter().filter(|(k, _)| k != "repo_pending_updates").collect()
+}
+
+fn hs_reload<C: MlsConfig>(h: &mut Hs<C>, i: usize, who: &str, out: &mut Out) {
+    if let Err(e) = reload(&mut h.w, i) {
+        out.fails.push(format!("{who} reload: {e}"));
+    }
+    out.cover.insert(format!("hs:{who}-reload"));
+}
+
+/// End of a scenario: the whole log against the oracles and the replayed trees of the epochs seen.
+fn hs_finish<C: MlsConfig, P: CipherSuiteProvider>(h: &mut Hs<C>, views: &[Option<(u64, u32, Vec<u8>, Vec<u8>)>], cs: &P, qa: &mut QA, out: &mut Out, sdk_rows: usize) {
+    let recs = {
+        let mut l = h.log.lock().unwrap();
+        l.enabled = false;
+        l.aead_seals.clear();
+        std::mem::take(&mut l.seal_recs)
+    };
+    let (seals, welcomes) = classify(&recs, &mut out.fails);
+    out.seals += recs.len() as u64;
+    if welcomes > 0 {
+        // every commit encrypts a group info under the welcome key (no AAD), new members or not: a class of its own
+        out.cover.insert("welcome-seal".into());
+    }
+    if seals.len() != h.items.len() {
+        out.fails.push(format!("{} content seals for {} messages", seals.len(), h.items.len()));
+    }
+    for (s, it) in seals.iter().zip(h.items.iter()) {
+        if s.key != it.seal.key || s.ct != it.seal.ct {
+            out.fails.push(format!("seal log does not match the message stream at {}", s.d()));
+        }
+    }
+    seal_oracles(&seals, &mut out.fails);
+    // the clause by itself: the keys used for handshake content and for application content are disjoint
+    let appk: BTreeSet<&[u8]> = seals.iter().filter(|s| s.app()).map(|s| &s.key[..]).collect();
+    if seals.iter().any(|s| !s.app() && appk.contains(&s.key[..])) {
+        out.fails.push("the keys used for handshake content and for application content are not disjoint".into());
+    }
+    for v in views {
+        match v {
+            Some(v) => replay_epoch(cs, v, &seals, qa, &mut out.fails, sdk_rows),
+            None => out.fails.push("no member with an untouched secret tree at the start of an epoch".into()),
+        }
+    }
+    for m in &h.w.members {
+        if let Some(p) = &m.h.sqlite_path {
+            let _ = std::fs::remove_file(p);
+        }
+    }
+}
+
+fn hs_start<C: MlsConfig>(rng: &mut Rng, log: SharedCryptoLog, mk: Mk<C>, n: usize, out: &mut Out) -> Option<Hs<C>> {
+    let mut w: World<C> = new_world(log.clone(), &crate::util::scratch("c05"));
+    if let Err(e) = small_group(&mut w, mk, n, true, rng.chance(1, 3)) {
+        out.fails.push(format!("setup: {e}"));
+        return None;
+    }
+    {
+        let mut l = log.lock().unwrap();
+        l.aead_seals.clear();
+        l.seal_recs.clear();
+        l.enabled = true;
+    }
+    Some(Hs { w, log, items: vec![], model: Default::default(), log_pos: 0, sent: Default::default() })
+}
+
+/// The committer's encrypted commit: built (after forgetting the cached proposals if `clear_cache`) and applied by the
+/// committer; the callers deliver it.  `by_value`: an external PSK the commit carries by value.
+fn hs_commit<C: MlsConfig>(h: &mut Hs<C>, c: usize, clear_cache: bool, by_value: Option<Vec<u8>>, out: &mut Out) -> Option<usize> {
+    let epoch = h.w.group(c).current_epoch();
+    if let Some(id) = &by_value {
+        for m in &h.w.members {
+            m.h.psk.inner.lock().unwrap().insert(ext_psk_id(id), psk_value(&[&id[..], &[9u8; 32]].concat()));
+        }
+    }
+    let (r, o) = h.w.with_group(c, |g| {
+        if clear_cache {
+            g.clear_proposal_cache();
+        }
+        let mut b = g.commit_builder();
+        if let Some(id) = &by_value {
+            b = b.add_external_psk(ext_psk_id(id))?;
+        }
+        b.build()
+    });
+    let Some(o) = o else {
+        out.fails.push(format!("encrypted commit by member {c} failed: {}", r.s()));
+        return None;
+    };
+    let m = o.commit_message.clone();
+    let seal = hs_note_seal(h, c, "commit", epoch, &m, out)?;
+    h.items.push(Item { sender: c, kind: "commit", msg: m, tag: vec![], seal });
+    out.msgs += 1;
+    let ci = h.items.len() - 1;
+    let (r, _) = h.w.with_group(c, |g| g.apply_pending_commit());
+    if !r.ok() {
+        out.fails.push(format!("apply_pending_commit: {}", r.s()));
+        return None;
+    }
+    Some(ci)
+}
+
+fn shuffle<T>(rng: &mut Rng, v: &mut [T]) {
+    for k in (1..v.len()).rev() {
+        let j = rng.below(k as u64 + 1) as usize;
+        v.swap(k, j);
+    }
+}
+
+/// Several senders, each a random interleaving of application messages and encrypted proposals; sending and receiving
+/// interleaved (every member's secret tree serves its own leaf and the others' at the same time); duplicates delivered at a
+/// random later time; reloads of senders and receivers; then the encrypted commit of one of the senders.
+/// `by_ref`: every proposal reaches everybody and the commit carries all of them by reference.  Otherwise the committer's
+/// messages reach each receiver completely / in part / not at all, it forgets the proposals and commits (with or without a
+/// proposal by value): its commit is `k` handshake generations ahead of a receiver that saw none of its `k` proposals.
+fn hs_scenario<C: MlsConfig, P: CipherSuiteProvider>(rng: &mut Rng, log: SharedCryptoLog, mk: Mk<C>, out: &mut Out, cs: &P, qa: &mut QA) {
+    let n = rng.range(2, 4) as usize;
+    let Some(mut h) = hs_start(rng, log, mk, n, out) else { return };
+    let mut views = vec![fresh_epoch_view(&h.w, 0)];
+    let by_ref = rng.chance(1, 2);
+    let c = rng.below(n as u64) as usize;
+    // what the committer's messages do per receiver when proposals are not committed: 0 none, 1 some, 2 all
+    let mode: Vec<u64> = (0..n).map(|_| rng.below(3)).collect();
+    // plans
+    let mut plans: Vec<Vec<(&'static str, Vec<u8>)>> = vec![];
+    let mut gce_used = false;
+    let mut adds = 0;
+    for s in 0..n {
+        let cnt = rng.range(3, 22);
+        let mut updated = false;
+        let mut p = vec![];
+        for k in 0..cnt {
+            let tag = vec![s as u8, k as u8, rng.next() as u8];
+            if rng.chance(1, 2) {
+                p.push(("app", tag));
+                continue;
+            }
+            let kind = if by_ref {
+                match rng.below(6) {
+                    0 if !updated && s != c => {
+                        updated = true;
+                        "update"
+                    }
+                    1 if !gce_used => {
+                        gce_used = true;
+                        "gce"
+                    }
+                    _ => "psk",
+                }
+            } else {
+                match rng.below(9) {
+                    0 => "update",
+                    1 => "gce",
+                    2 | 3 => "remove",
+                    4 | 5 => "custom",
+                    6 if adds < 2 => {
+                        adds += 1;
+                        "add"
+                    }
+                    _ => "psk",
+                }
+            };
+            p.push((kind, tag));
+        }
+        if by_ref && rng.chance(3, 4) {
+            // application data can only be sent while no proposal is held: mostly first
+            p.sort_by_key(|x| x.0 != "app");
+        }
+        p.reverse();
+        plans.push(p);
+    }
+    let mut inbox: Vec<Vec<usize>> = vec![vec![]; n];
+    let mut missed: Vec<Vec<usize>> = vec![vec![]; n];
+    loop {
+        let senders: Vec<usize> = (0..n).filter(|&s| !plans[s].is_empty()).collect();
+        let ready: Vec<usize> = (0..n).filter(|&r| !inbox[r].is_empty()).collect();
+        if senders.is_empty() && ready.is_empty() {
+            break;
+        }
+        if !senders.is_empty() && (ready.is_empty() || rng.chance(1, 2)) {
+            let s = *rng.pick(&senders);
+            if rng.chance(1, 12) {
+                hs_reload(&mut h, s, "sender", out);
+            }
+            let (kind, tag) = plans[s].pop().unwrap();
+            let Some(mi) = hs_send(&mut h, mk, s, kind, tag, !by_ref, out) else { continue };
+            out.cover.insert(format!("hs:send:{kind}"));
+            for r in 0..n {
+                if r == s {
+                    if rng.chance(1, 8) {
+                        inbox[r].push(mi);
+                    }
+                    continue;
+                }
+                let lossy = !by_ref && s == c;
+                if lossy && (mode[r] == 0 || (mode[r] == 1 && rng.chance(1, 2))) {
+                    missed[r].push(mi);
+                    continue;
+                }
+                inbox[r].push(mi);
+                if rng.chance(1, 4) {
+                    inbox[r].push(mi);
+                }
+            }
+        } else {
+            let r = *rng.pick(&ready);
+            if rng.chance(1, 20) {
+                hs_reload(&mut h, r, "receiver", out);
+            }
+            let j = rng.below(inbox[r].len() as u64) as usize;
+            let mi = inbox[r].swap_remove(j);
+            hs_deliver(&mut h, r, mi, out);
+        }
+    }
+    // everything that was put into an inbox once must have been accepted exactly once
+    for r in 0..n {
+        for (mi, it) in h.items.iter().enumerate() {
+            if it.sender == r || missed[r].contains(&mi) {
+                continue;
+            }
+            let served = h.model.get(&(r, it.seal.epoch, it.seal.leaf, it.seal.app())).map(|m| m.used.contains(&it.seal.gen)).unwrap_or(false);
+            if !served {
+                out.fails.push(format!("receiver {r} never accepted {} {}", it.kind, it.seal.d()));
+            }
+        }
+    }
+    // the commit of member c, sealed on its handshake ratchet after the proposals it sent
+    let k = *h.sent.get(&(h.w.group(c).current_epoch(), c, false)).unwrap_or(&0);
+    let by_value = if !by_ref && rng.chance(1, 2) { Some(vec![0xC0, c as u8, rng.next() as u8]) } else { None };
+    let Some(ci) = hs_commit(&mut h, c, !by_ref, by_value.clone(), out) else {
+        hs_finish(&mut h, &views, cs, qa, out, 6);
+        return;
+    };
+    if h.items[ci].seal.gen != k {
+        out.fails.push(format!("the commit after {k} encrypted proposals of member {c} was sealed as {}", h.items[ci].seal.d()));
+    }
+    out.cover.insert(format!("hs:commit:{}", if by_ref { "by-reference" } else if by_value.is_some() { "by-value" } else { "empty" }));
+    for r in 0..n {
+        if r == c {
+            continue;
+        }
+        if rng.chance(1, 6) {
+            hs_reload(&mut h, r, "receiver", out);
+        }
+        let seen = h.model.get(&(r, h.items[ci].seal.epoch, h.items[ci].seal.leaf, false)).map(|m| m.used.len()).unwrap_or(0);
+        if k > 0 {
+            out.cover.insert(format!("hs:commit-after-proposals:receiver-saw-{}", if seen == 0 { "none" } else if (seen as u32) < k { "some" } else { "all" }));
+        }
+        if !hs_deliver(&mut h, r, ci, out) {
+            out.fails.push(format!("receiver {r} (saw {seen} of the committer's {k} encrypted proposals) did not accept the encrypted commit"));
+        }
+        if rng.chance(1, 3) {
+            hs_deliver(&mut h, r, ci, out);
+        }
+    }
+    if let Err(e) = agreement(&h.w, &(0..n).collect::<Vec<_>>()) {
+        out.fails.push(format!("after the encrypted commit: {e}"));
+    }
+    // the next epoch: fresh ratchets (generation 0 again, other keys); late application messages of the closed epoch
+    views.push(fresh_epoch_view(&h.w, c));
+    let mut batch = vec![];
+    for s in 0..n {
+        for j in 0..rng.range(1, 3) {
+            let kind = if rng.chance(1, 2) { "app" } else { "psk" };
+            if let Some(mi) = hs_send(&mut h, mk, s, kind, vec![0xE1, s as u8, j as u8, rng.next() as u8], true, out) {
+                batch.push(mi);
+            }
+        }
+    }
+    for r in 0..n {
+        let mut order: Vec<usize> = batch.iter().copied().filter(|&mi| h.items[mi].sender != r).collect();
+        let late: Vec<usize> = missed[r].iter().copied().filter(|&mi| h.items[mi].kind == "app").take(4).collect();
+        order.extend(late.iter().copied());
+        shuffle(rng, &mut order);
+        for mi in order {
+            let ok = hs_deliver(&mut h, r, mi, out);
+            let is_late = late.contains(&mi);
+            if is_late && ok {
+                // accepted from the closed epoch: the replay must still be refused after the member was saved and loaded
+                hs_reload(&mut h, r, "receiver", out);
+                out.cover.insert("late:replay-after-reload".into());
+            }
+            if is_late || rng.chance(1, 4) {
+                hs_deliver(&mut h, r, mi, out);
+            }
+        }
+    }
+    if out.samples.len() < 8 {
+        out.samples.push(format!("hs members={n} by_ref={} committer={c} msgs={}", by_ref as u8, h.items.len()));
+    }
+    out.cover.insert(format!("hs:members={n}:{}", if by_ref { "by-ref" } else { "lossy" }));
+    hs_finish(&mut h, &views, cs, qa, out, 6);
+}
+
+/// The window on the handshake ratchet: one sender produces `k` in {1024, 1025, 1026} encrypted proposals (and some sixty
+/// application messages in between) of which the receivers see a few; its commit has handshake generation `k`.
+/// Receiver 1 takes the newest first (generation 1025 is refused while its ratchet is at 0, 1024 is served, then 1025 is, then
+/// generation 0 from the history — after it has seen application generation > 50 of the same sender).  Receiver 2 sees no
+/// proposal at all: the commit is refused iff `k > 1024` and served after one proposal moved the ratchet.
+fn hs_gap_scenario<C: MlsConfig, P: CipherSuiteProvider>(rng: &mut Rng, log: SharedCryptoLog, mk: Mk<C>, out: &mut Out, cs: &P, qa: &mut QA, k: u32) {
+    let n = 3;
+    let Some(mut h) = hs_start(rng, log, mk, n, out) else { return };
+    let mut views = vec![fresh_epoch_view(&h.w, 1)];
+    let apps = 60u32;
+    let mut hs_items = vec![];
+    let mut app_items = vec![];
+    let (mut hs_left, mut app_left) = (k, apps);
+    let reload_at = rng.below(k as u64) as u32;
+    while hs_left + app_left > 0 {
+        if rng.below((hs_left + app_left) as u64) < app_left as u64 {
+            app_left -= 1;
+            if let Some(mi) = hs_send(&mut h, mk, 0, "app", vec![0xA0, app_left as u8, rng.next() as u8], true, out) {
+                app_items.push(mi);
+            }
+        } else {
+            hs_left -= 1;
+            if hs_left == reload_at {
+                hs_reload(&mut h, 0, "sender", out);
+            }
+            let kind = *rng.pick(&["remove", "custom", "gce", "remove"]);
+            if let Some(mi) = hs_send(&mut h, mk, 0, kind, vec![(hs_left >> 8) as u8, hs_left as u8, rng.next() as u8], true, out) {
+                hs_items.push(mi);
+            }
+        }
+    }
+    if hs_items.len() != k as usize || app_items.len() != apps as usize {
+        hs_finish(&mut h, &views, cs, qa, out, 6);
+        return;
+    }
+    let Some(ci) = hs_commit(&mut h, 0, true, None, out) else {
+        hs_finish(&mut h, &views, cs, qa, out, 6);
+        return;
+    };
+    if h.items[ci].seal.gen != k {
+        out.fails.push(format!("the commit after {k} encrypted proposals was sealed as {}", h.items[ci].seal.d()));
+    }
+    let hs = |g: u32| hs_items.get(g as usize).copied();
+    // receiver 1
+    let mut order: Vec<Option<usize>> = vec![app_items.last().copied(), hs(1025), hs(1024), hs(1023), hs(1025), hs(0), hs(0)];
+    for _ in 0..10 {
+        order.push(hs(rng.below(k as u64) as u32));
+    }
+    order.extend([app_items.first().copied(), None, hs(1024), hs(1), Some(ci), Some(ci)]);
+    for x in order {
+        match x {
+            Some(mi) => {
+                hs_deliver(&mut h, 1, mi, out);
+            }
+            None => hs_reload(&mut h, 1, "receiver", out),
+        }
+    }
+    // receiver 2
+    let first = k - 1024 + rng.below(3) as u32;
+    let order2: Vec<Option<usize>> = vec![Some(ci), app_items.get(50).copied(), Some(ci), None, hs(first), hs(0), Some(ci), None, Some(ci), hs(2)];
+    for x in order2 {
+        match x {
+            Some(mi) => {
+                hs_deliver(&mut h, 2, mi, out);
+            }
+            None => hs_reload(&mut h, 2, "receiver", out),
+        }
+    }
+    for r in 1..n {
+        if !h.model.get(&(r, h.items[ci].seal.epoch, 0, false)).map(|m| m.used.contains(&k)).unwrap_or(false) {
+            out.fails.push(format!("receiver {r} did not accept the commit at handshake generation {k} in the end"));
+        }
+    }
+    if let Err(e) = agreement(&h.w, &(0..n).collect::<Vec<_>>()) {
+        out.fails.push(format!("after the encrypted commit (handshake generation {k}): {e}"));
+    }
+    views.push(fresh_epoch_view(&h.w, 0));
+    out.cover.insert(format!("hsgap:k={k}"));
+    if out.samples.len() < 10 {
+        out.samples.push(format!("hsgap k={k} msgs={}", h.items.len()));
+    }
+    hs_finish(&mut h, &views, cs, qa, out, 6);
+}
+
 pub fn run(o: &Opts) -> i32 {
     crate::util::quiet_panics();
     let dir = o.str("out", "/verif/work/c05");
@@ -244,7 +1100,6 @@ pub fn run(o: &Opts) -> i32 {
     for i in 0..scripts {
         secret_tree_script(&cs, 1, &mut rng, &mut qa, 60, i % 3 == 0);
     }
-    let rows = qa.finish();
     // (2) real groups
     let scen = o.u64("scenarios", if o.thorough() { 600 } else { 40 });
     let gaps = o.u64("gaps", if o.thorough() { 6 } else { 1 });
@@ -253,11 +1108,25 @@ pub fn run(o: &Opts) -> i32 {
     let mk = |s: &Setup, hd: &Handles, id, sk| mk_client(s, hd, id, sk);
     for i in 0..scen + gaps {
         let mut r = rng.fork();
-        scenario(&mut r, log.clone(), &mk, &mut out, i >= scen);
+        scenario(&mut r, log.clone(), &mk, &mut out, i >= scen, &cs, &mut qa);
     }
-    let _ = std::fs::remove_dir_all("/tmp/vharness-scratch-c05");
+    // (3) application and encrypted handshake messages interleaved; the window on the handshake ratchet
+    let hs = o.u64("hs", if o.thorough() { 500 } else { 30 });
+    let hsgaps = o.u64("hsgaps", if o.thorough() { 6 } else { 1 });
+    for _ in 0..hs {
+        let mut r = rng.fork();
+        hs_scenario(&mut r, log.clone(), &mk, &mut out, &cs, &mut qa);
+    }
+    for i in 0..hsgaps {
+        let mut r = rng.fork();
+        // 1025 and 1026 probe both sides of the window (1024 served, 1025 refused); 1024 only the serving side
+        let k = if hsgaps >= 3 { 1024 + (i % 3) as u32 } else { 1025 + r.below(2) as u32 };
+        hs_gap_scenario(&mut r, log.clone(), &mk, &mut out, &cs, &mut qa, k);
+    }
+    let rows = qa.finish();
+    let _ = std::fs::remove_dir_all(&crate::util::scratch("c05"));
     println!("rows {rows}");
-    println!("scenarios {}", scen + gaps);
+    println!("scenarios {}", scen + gaps + hs + hsgaps);
     println!("messages {}", out.msgs);
     println!("deliveries {}", out.deliveries);
     println!("aead_seals {}", out.seals);
@@ -270,9 +1139,9 @@ pub fn run(o: &Opts) -> i32 {
     // `--focus C04`: this run is part of the C04 check (state changes by refused messages); otherwise of C05 / C13
     let c04_focus = o.str("focus", "") == "C04";
     if c04_focus {
-        std::fs::write(format!("{dir}/c05.failures"), out.c04.iter().take(100).map(|f| format!("C04: {f}")).collect::<Vec<_>>().join("\n")).unwrap();
+        std::fs::write(format!("{dir}/c05.failures"), out.c04.iter().map(|f| format!("C04: {f}")).collect::<Vec<_>>().join("\n")).unwrap();
     } else {
-        std::fs::write(format!("{dir}/c05.failures"), out.fails.iter().take(100).cloned().collect::<Vec<_>>().join("\n")).unwrap();
+        std::fs::write(format!("{dir}/c05.failures"), out.fails.iter().cloned().collect::<Vec<_>>().join("\n")).unwrap();
     }
     std::fs::write(format!("{dir}/c05.samples"), out.samples.join("\n")).unwrap();
     0
